@@ -2,7 +2,9 @@ package in_toto
 
 import (
 	"context"
+	"crypto/ed25519"
 	"encoding/base64"
+	"encoding/hex"
 	"encoding/json"
 	"errors"
 	"fmt"
@@ -171,6 +173,13 @@ func (e *Envelope) Dump(path string) error {
 }
 
 func getSignerVerifierFromKey(key Key) (dsse.SignerVerifier, error) {
+	// The constructors below take for granted that the key material is what
+	// the key type says. They crash on, e.g., an "rsa" key with ECDSA
+	// material, and ed25519 keys of a wrong length crash when they are used.
+	if err := validateKeyMaterial(key); err != nil {
+		return nil, err
+	}
+
 	sslibKey := getSSLibKeyFromKey(key)
 
 	switch sslibKey.KeyType {
@@ -183,6 +192,35 @@ func getSignerVerifierFromKey(key Key) (dsse.SignerVerifier, error) {
 	}
 
 	return nil, ErrUnsupportedKeyType
+}
+
+/*
+validateKeyMaterial checks that the public and, if present, the private part of
+the passed key can be parsed and are of the key's type. For ed25519 keys, which
+are stored as plain hex strings, it checks their lengths instead. Keys of an
+unknown type are left to the caller.
+*/
+func validateKeyMaterial(key Key) error {
+	switch key.KeyType {
+	case rsaKeyType, ecdsaKeyType:
+		return validateKeyVal(key)
+	case ed25519KeyType:
+		if err := validateKeyVal(key); err != nil {
+			return err
+		}
+		if hex.DecodedLen(len(key.KeyVal.Public)) != ed25519.PublicKeySize {
+			return fmt.Errorf("%w: ed25519 public key must have %d bytes",
+				ErrInvalidKey, ed25519.PublicKeySize)
+		}
+		// the private part may be the seed alone, or the seed and the public key
+		privateLen := hex.DecodedLen(len(key.KeyVal.Private))
+		if key.KeyVal.Private != "" && privateLen != ed25519.SeedSize &&
+			privateLen != ed25519.PrivateKeySize {
+			return fmt.Errorf("%w: ed25519 private key must have %d or %d bytes",
+				ErrInvalidKey, ed25519.SeedSize, ed25519.PrivateKeySize)
+		}
+	}
+	return nil
 }
 
 func getSSLibKeyFromKey(key Key) signerverifier.SSLibKey {
